@@ -30,6 +30,7 @@ func ruleC09(w *World) {
 	w.ruleCgoExtents("C09.R1")
 	w.ruleUntrustedInts("C09.R2")
 	w.rulePanics("C09.R3")
+	w.ruleDecodedInts("C09.R8")
 	d := w.dkg("C09.R4")
 	if d != nil {
 		w.ruleMessageParsing("C09.R4", d)
@@ -454,7 +455,13 @@ func (w *World) ruleUntrustedInts(rule string) {
 	// (d) fixed-size arrays indexed by a computed value: the index interval must lie inside the array
 	//     (arrays have a static length, so this is decidable from intervals alone)
 	narr := 0
-	for _, fn := range w.srcFuncs(rootPath) {
+	var arrFns []*ssa.Function
+	// (hash and random index their arrays under relational invariants — bufIndex+bufSize <= rate, loop counters —
+	// that intervals cannot express; there the decoded-integer rule R8 covers what untrusted bytes can reach)
+	for _, pp := range []string{rootPath} {
+		arrFns = append(arrFns, w.srcFuncs(pp)...)
+	}
+	for _, fn := range arrFns {
 		if isTestFile(w, fn.Pos()) {
 			continue
 		}
@@ -465,6 +472,26 @@ func (w *World) ruleUntrustedInts(rule string) {
 				idx, cont = x.Index, x.X
 			case *ssa.Index:
 				idx, cont = x.Index, x.X
+			case *ssa.Slice:
+				// array[lo:hi] with a computed bound: 0 <= lo, hi <= len(array) must follow from intervals
+				arr, isArr := deref(x.X.Type()).Underlying().(*types.Array)
+				if !isArr {
+					return
+				}
+				for bi, b := range []ssa.Value{x.Low, x.High, x.Max} {
+					if b == nil {
+						continue
+					}
+					if _, isC := constOf(b); isC {
+						continue
+					}
+					narr++
+					lo, hi, ok := w.intBound(b, ins)
+					w.check(ok && lo >= 0 && hi <= arr.Len(), rule, fmt.Sprintf("%s/array-slice:%s/%s", fnKey(fn), shortCond(render(x.X)), []string{"low", "high", "max"}[bi]), ins.Pos(),
+						fmt.Sprintf("slice bound in [%d,%d] within the %d-element array", lo, hi, arr.Len()),
+						fmt.Sprintf("array of %d elements is sliced with bound `%s`, whose value can be %d..%d: slice-bounds panic for some inputs", arr.Len(), shortCond(render(b)), lo, hi), factStrings(w.factsAt(ins))...)
+				}
+				return
 			default:
 				return
 			}
